@@ -183,6 +183,9 @@ func c15(c *ev.Ctx) {
 		}
 		c.SampleEvery(i, func() interface{} { return map[string]string{"script": script} })
 	})
+	// the literals of a prepared script denote the same values after a second Prepare that
+	// was refused (by the compiler or by the size limits) as before it (stream shared with C20)
+	c20RePrepare(c)
 	// objects the host handed over with SetVariable stay as the host made them, whatever the
 	// script does to the variables
 	for vi, script := range []string{
